@@ -1615,13 +1615,6 @@ def selection_width(rep, lib, rid="C15-WIDTH"):
                 nm = pr.origins(w.args[1])
                 if not any(x[0] == "arg" and x[1] == 1 and ("f%d" % name_f) in x[2] for x in nm):
                     bad = (w, "%s is not given self.name" % ext)
-                if m == "process":
-                    val = pr.origins(w.args[2])
-                    gets = [x for x in val if x[0] == "call" and b.call_at[x[1]].trait == common.GET_TRAIT]
-                    if not gets:
-                        bad = (w, "the recorded result is not the value of self.getter.get(..)")
-                    elif any(x[0] == "const" for x in val) and not gets:
-                        bad = (w, "a constant is recorded instead of the getter's value")
         if bad:
             r.bad("SelectionProcess::" + m, bad[1], bad[0].where())
         else:
